@@ -70,6 +70,8 @@ type c16Scenario struct {
 	// health check is slow) is saved and, DetourMs later and without waiting for anything,
 	// the final configuration again
 	DetourMs int `json:"detourMs,omitempty"`
+	// CacheSize: size of every memory-only cache (0 = 1000); also sizes that the shards do not divide evenly
+	CacheSize int `json:"cacheSize,omitempty"`
 }
 
 func subsetOf(t *rapid.T, label string, pool []string, min int) []string {
@@ -361,6 +363,7 @@ func mutateA(t *rapid.T, prev aConfig) aConfig {
 
 func genC16(t *rapid.T) c16Scenario {
 	sc := c16Scenario{Store: rapid.IntRange(0, 9).Draw(t, "store") < 4}
+	sc.CacheSize = rapid.SampledFrom([]int{0, 0, 1001, 5000, 1023, 4100}).Draw(t, "cacheSize") // large enough for the probes of a case not to evict the retained entry
 	if rapid.IntRange(0, 9).Draw(t, "detour") < 4 {
 		sc.DetourMs = rapid.SampledFrom([]int{1, 20, 60, 100, 120, 150, 180, 220, 300}).Draw(t, "detourMs")
 	}
@@ -394,6 +397,9 @@ var (
 	graceChecks int // the 10 s close grace of removed servers is waited for a bounded number of times per process
 )
 
+// c16CacheSize: the cache size of the scenario being executed (one scenario at a time per process)
+var c16CacheSize int
+
 func toPikeConfig(a aConfig, ports []int, storeDir string) *config.PikeConfig {
 	c := &config.PikeConfig{}
 	for _, x := range a.Compresses {
@@ -408,6 +414,9 @@ func toPikeConfig(a aConfig, ports []int, storeDir string) *config.PikeConfig {
 	}
 	for _, n := range a.Caches {
 		cc := config.CacheConfig{Name: n, Size: 1000, HitForPass: "5m"}
+		if c16CacheSize > 0 {
+			cc.Size = c16CacheSize
+		}
 		if storeDir != "" {
 			cc.Size, cc.Store = 8, "badger://"+storeDir+"/shared"
 		}
@@ -506,7 +515,7 @@ func battery(cl *http.Client, a aConfig, ports []int, tag string) map[string]str
 func filterReadded(sc c16Scenario) (c16Scenario, int) {
 	removed := map[int]bool{}
 	n := 0
-	res := c16Scenario{Store: sc.Store, DetourMs: sc.DetourMs}
+	res := c16Scenario{Store: sc.Store, DetourMs: sc.DetourMs, CacheSize: sc.CacheSize}
 	var prevSlots map[int]bool
 	for _, c := range sc.Configs {
 		c = cloneA(c)
@@ -548,6 +557,10 @@ func execC16(sc c16Scenario) *vstat.Outcome {
 
 func execC16raw(sc c16Scenario) *vstat.Outcome {
 	out := &vstat.Outcome{}
+	c16CacheSize = sc.CacheSize
+	if sc.CacheSize%8 != 0 {
+		out.Class("cache_size_not_divided_evenly_by_the_shards")
+	}
 	c16Once.Do(func() {
 		for _, n := range []string{"A", "B", "C"} {
 			c16Ups = append(c16Ups, newEchoUpstream(n))
